@@ -357,8 +357,11 @@ Definition resultTypeDyn (op : binop) (l r : value) : res (kind * Z) :=
         if tequal (vkind l) (vbits l) (vkind r) (vbits r) then Ok (vkind l, vbits l) else Err E_TYPES
     end.
 
-(* Binary.SSA *)
-Definition evalBinary (op : binop) (l r : value) : res value :=
+(* Binary.SSA.  [wf] gives the wires a constant operand arrives on (its own wires
+   [const_wires] in a program with one constant; the shared wires of the constant
+   table, [lookup_wires] below, in general). *)
+Definition vwiresW (wf : cval -> Z) (v : value) : Z := match v with VC c => wf c | VD _ _ x => x end.
+Definition evalBinaryW (wf : cval -> Z) (op : binop) (l r : value) : res value :=
   match l, r with
   | VC lc, VC rc => do c <- evalConst op lc rc; Ok (VC c)
   | _, _ =>
@@ -374,11 +377,13 @@ Definition evalBinary (op : binop) (l r : value) : res value :=
         | VC (CI _ m) =>
             let count := Int64 m in       (* Value.ConstInt: types.Size(val.Int64()) *)
             if count <? 0 then Err E_NEGSHIFT
-            else Ok (VD rk rw (instr_sem op k (vbits l) (vwires l) 0 count rw))
+            else Ok (VD rk rw (instr_sem op k (vbits l) (vwiresW wf l) 0 count rw))
         | _ => Err E_SHIFTIDX
         end
-      else Ok (VD rk rw (instr_sem op k (vbits l) (vwires l) (vbits r) (vwires r) rw))
+      else Ok (VD rk rw (instr_sem op k (vbits l) (vwiresW wf l) (vbits r) (vwiresW wf r) rw))
   end.
+
+Definition evalBinary : binop -> value -> value -> res value := evalBinaryW const_wires.
 
 (* Unary.SSA: "sub $0 x" with $0 = gen.Constant(int64(0)) : 32 wires *)
 Definition evalNeg (v : value) : res value :=
@@ -421,11 +426,12 @@ Fixpoint eval (e : expr) : res value :=
 
 (* Return.SSA: ssa.CanAssign(return type, value), then "mov value ret":
    the low rn wires, zero-extended.  Result = the output as Compute prints it. *)
-Definition evalReturn (rk : kind) (rn : Z) (v : value) : res Z :=
+Definition evalReturnW (wf : cval -> Z) (rk : kind) (rn : Z) (v : value) : res Z :=
   match v with
-  | VC c => if canAssignConst rk rn (ctype c) then Ok ((const_wires c) mod 2^rn) else Err E_RETURN
+  | VC c => if canAssignConst rk rn (ctype c) then Ok ((wf c) mod 2^rn) else Err E_RETURN
   | VD k w x => if tequal rk rn k w then Ok (x mod 2^rn) else Err E_RETURN
   end.
+Definition evalReturn : kind -> Z -> value -> res Z := evalReturnW const_wires.
 
 Definition run_program (rk : kind) (rn : Z) (e : expr) : res Z :=
   do v <- eval e; evalReturn rk rn v.
@@ -519,3 +525,87 @@ Definition neg_ok_class (k : kind) (n a : Z) : bool :=
   intlike k && (0 <? n) && reprb k n a && canon n a.
 Definition neg_exact_class (k : kind) (n a : Z) : bool :=
   neg_ok_class k n a && ((n =? 32) || (64 <=? n)).
+
+(* ---------- the constant table: several constants in one program ----------
+   ssa/generator.go Constant: v.Name = "$" + val.String();  mpint.go String():
+   values.String() if values != nil else FormatInt(i64, 10) — the decimal of the
+   stored value [mval].  gen.constants (AddConstant) and the wire allocator
+   (Value.Equal / HashCode: Const, Name, Scope, Version) are keyed by that name
+   only: the first constant registered under a name provides the wires
+   (program.go DefineConstants: its Type.Bits wires, wire i = Bit(i)); a consumer
+   whose constant has another Type.Bits gets them truncated, or extended with the
+   top wire when ITS type is TInt, with zero otherwise (circuitgen.go
+   Program.Circuit, "Const values are cast to different value sizes"). *)
+Definition cname (c : cval) : option Z := match c with CI _ m => Some (mval m) | CB _ => None end.
+
+Fixpoint tlookup (nm : Z) (tbl : list (Z * cval)) : option cval :=
+  match tbl with
+  | [] => None
+  | (n', c) :: rest => if n' =? nm then Some c else tlookup nm rest
+  end.
+(* Generator.AddConstant: only the first constant of a name is kept *)
+Definition intern (tbl : list (Z * cval)) (c : cval) : list (Z * cval) :=
+  match cname c with
+  | Some nm => match tlookup nm tbl with Some _ => tbl | None => tbl ++ [(nm, c)] end
+  | None => tbl
+  end.
+(* wires of the first-registered constant e, as the consumer of a constant of
+   kind k2 / width w2 receives them *)
+Definition extend_wires (e : cval) (k2 : kind) (w2 : Z) : Z :=
+  let w1 := tbits (ctype e) in
+  let w := const_wires e in
+  if w1 =? w2 then w
+  else if w2 <? w1 then w mod 2^w2
+  else if kind_eqb k2 KInt && (0 <? w1) && Z.testbit w (w1 - 1) then w + (2^w2 - 2^w1)
+  else w.
+Definition lookup_wires (tbl : list (Z * cval)) (c : cval) : Z :=
+  match c with
+  | CB b => if b then 1 else 0
+  | CI t m =>
+      match tlookup (mval m) tbl with
+      | Some e => extend_wires e (tk t) (tbits t)
+      | None => const_wires c
+      end
+  end.
+
+(* the multi-constant programs of the harness:
+     x_i := E_i  (i = 0..m-1) ; return C_0, .., C_{m-1}
+   consumer C_i: 0 = x_i, 1 = p_i + x_i, 2 = p_i < x_i, 3 = x_i >> 1 (p_i a
+   run-time input of x_i's declared type k_i / n_i holding pv_i). *)
+Record mitem := mkItem { ik : kind; inn : Z; iex : expr; icons : Z; ipv : Z }.
+
+Fixpoint res_map {A B} (f : A -> res B) (l : list A) : res (list B) :=
+  match l with
+  | [] => Ok []
+  | x :: xs => do y <- f x; do ys <- res_map f xs; Ok (y :: ys)
+  end.
+
+Definition intern_val (tbl : list (Z * cval)) (v : value) : list (Z * cval) :=
+  match v with VC c => intern tbl c | VD _ _ _ => tbl end.
+Definition vname (v : value) : list Z :=
+  match v with VC c => match cname c with Some n => [n] | None => [] end | VD _ _ _ => [] end.
+
+(* what the consumer registers / emits before circuit generation: x >> 1 with a
+   constant x is folded again (a new constant) *)
+Definition consumer_prep (it : mitem) (v : value) : res value :=
+  if icons it =? 3 then do one <- literal 1; evalBinary ORsh v (VC one) else Ok v.
+
+Definition consumer_out (wf : cval -> Z) (it : mitem) (v : value) : res Z :=
+  let p := VD (ik it) (inn it) ((ipv it) mod 2^(inn it)) in
+  if icons it =? 1 then do r <- evalBinaryW wf OAdd p v; evalReturnW wf (ik it) (inn it) r
+  else if icons it =? 2 then do r <- evalBinaryW wf OLt p v; evalReturnW wf KBool 1 r
+  else evalReturnW wf (ik it) (inn it) v.
+
+(* (names of the integer constants read by the SSA instructions, in listing
+   order; the program's outputs) *)
+Definition run_multi (items : list mitem) : res (list Z * list Z) :=
+  do vals <- res_map (fun it => eval (iex it)) items;
+  do preps <- res_map (fun iv => consumer_prep (fst iv) (snd iv)) (combine items vals);
+  let tbl := fold_left intern_val preps (fold_left intern_val vals []) in
+  let wf := lookup_wires tbl in
+  do outs <- res_map (fun iv => consumer_out wf (fst iv) (snd iv)) (combine items preps);
+  let names :=
+    concat (map vname vals) ++
+    concat (map (fun iv => if (icons (fst iv) =? 1) || (icons (fst iv) =? 2) then vname (snd iv) else []) (combine items preps)) ++
+    concat (map (fun iv => if (icons (fst iv) =? 0) || (icons (fst iv) =? 3) then vname (snd iv) else []) (combine items preps)) in
+  Ok (names, outs).
